@@ -487,10 +487,10 @@ harnesses! {
     { rn_apply_ahead, "C07,C01", quick, unwind = 8,
       "RawNode follower with max_apply_unpersisted_log_limit = 1: an append brings 4..=5 and commits 5 while only 1..=3 are persisted -> the Ready hands out 2..=4 (one unpersisted entry, across the stable/unstable boundary), after persistence the rest",
       |s| rawnode::cycle_drain(s, &RnShape::of(RF).apply_ahead(1), &Input::append(5, 3, 3, &[5, 5], 5), 1) }
-    { rn_apply_ahead_2, "C07,C01", quick, unwind = 8,
+    { rn_apply_ahead_2, "C07", quick, unwind = 8,
       "same with max_apply_unpersisted_log_limit = 2: the whole committed range 2..=5 (two unpersisted entries) is handed out by the first Ready, nothing is left for the second",
       |s| rawnode::cycle_drain(s, &RnShape::of(RF).apply_ahead(2), &Input::append(5, 3, 3, &[5, 5], 5), 1) }
-    { rn_apply_ahead_nolimit, "C07,C20,C01", quick, unwind = 8,
+    { rn_apply_ahead_nolimit, "C07,C20", quick, unwind = 8,
       "same with max_apply_unpersisted_log_limit = u64::MAX (the library's NO_LIMIT idiom; Config::validate accepts every u64): the bound min(committed, persisted + limit) must not overflow; everything committed is handed out by the first Ready",
       |s| rawnode::cycle_drain(s, &RnShape::of(RF).apply_ahead(u64::MAX), &Input::append(5, 3, 3, &[5, 5], 5), 1) }
     { rn_async_append, "C07,C06,C01", quick, unwind = 8,
